@@ -36,7 +36,8 @@ var c01Families = []family{
 	// an executable directive (declared in another schema file) on plain and resolver-backed fields
 	{`query($v1: Boolean!) { me { id name @mark(k: 1) best @mark(k: 2) { id age @mark(k: 3) } boss @include(if: $v1) @mark(k: 4) { id } } users { name @mark(k: 1) } }`, []string{"v1"}},
 	// an object with exactly one resolver-backed field, non-null, selected under several aliases
-	{`query($v1: Boolean!) { box { id a: inner { id } b: inner { id name } c: inner @include(if: $v1) { age } } me { id } }`, []string{"v1"}},
+	{`query($v1: Boolean!) { box { id a: inner { id } b: inner { id name } c: inner @include(if: $v1) { age } } me { id } }`, []string{"v1"}},	// schema directives on fields of a Go type that cannot hold nil
+	{`{ box { id seal code } me { id } }`, nil},
 }
 
 var c01Docs []*ast.QueryDocument
